@@ -306,7 +306,7 @@ pub fn main(tier: Tier, replay: Option<String>) -> i32 {
     let alpha = syms(&["東", "京", "都", "府", "長", "い"], &["1", "一", "a", "b", "㍿", "行", "っ", "く", "ア", "す", "だ", "ち"]);
     let all: Vec<u32> = (0..1024).collect();
     for (w, has_rewrite) in [(w_plain, false), (w_rw, true)] {
-        let bounds = tier.pick(TreeBounds { full_len: 1, ext_len: 2, max_special: 0 }, TreeBounds { full_len: 2, ext_len: 4, max_special: 1 });
+        let bounds = tier.pick(TreeBounds { full_len: 1, ext_len: 2, max_special: 0 }, TreeBounds { full_len: 2, ext_len: 3, max_special: 1 });
         let b = json!({"tree": bounds.to_json(), "subsets": 1024, "modes": 3, "orders": 2});
         jobs.push(job(SubsetTexts { world: w, has_rewrite, alpha: alpha.clone(), bounds, subsets: all.clone() }, Strategy::Dfs, Some(tier.pick(60, 3000)), b));
     }
